@@ -23,8 +23,8 @@ VERIF = os.path.dirname(os.path.dirname(os.path.abspath(__file__)))
 PY = sys.executable
 
 TIERS = {
-    'C16': {'quick': {'runs': 2400, 'det': 48, 'sweeps': 25, 'max_seconds': 700},
-            'thorough': {'runs': 60000, 'det': 512, 'sweeps': 400, 'max_seconds': 5000}},
+    'C16': {'quick': {'runs': 2400, 'det': 48, 'sweeps': 25, 'matrix': 13, 'max_seconds': 700},
+            'thorough': {'runs': 60000, 'det': 512, 'sweeps': 400, 'matrix': 338, 'max_seconds': 5000}},
     'C17': {'quick': {'runs': 6000, 'det': 48, 'fresh': 48, 'max_seconds': 700},
             'thorough': {'runs': 150000, 'det': 512, 'fresh': 300, 'max_seconds': 5000}},
 }
@@ -111,8 +111,19 @@ def _sweep(prop, tier, master, j, part):
     from .workload import call_repr
     ctx = CTX
     rng = random.Random(run_seed(master, prop, tier + '-sweep', j))
-    kind = c16.SWEEP_KINDS[j % len(c16.SWEEP_KINDS)]
-    spec = c16.gen_spec(ctx, rng, 'quick', force={'T': 2, 'counts': [1, 1], 'plan': 'one', 'gran': 'line', 'no_kill': True,
+    nk = TIERS[prop][tier].get('sweeps', 0)
+    fpair = None
+    if j >= nk:
+        # function-pair matrix: the (j - nk)-th ordered pair of public functions
+        fpair = c16.matrix_pair(j - nk, master)
+        kind = 'matrix'
+        spec = c16.gen_matrix_sweep(ctx, rng, fpair[0], fpair[1], tier)
+        if spec is None:
+            return {'sweep': j, 'part': part, 'A': fpair[0], 'B': fpair[1], 'len_A': 0, 'len_B': 0, 'kind': kind, 'warm_calls': 0,
+                    'capacity_filler': 0, 'points': 0, 'of': 0, 'exhaustive': False, 'pairs': [], 'fpair': list(fpair)}, None
+    else:
+        kind = c16.SWEEP_KINDS[j % len(c16.SWEEP_KINDS)]
+    spec = spec if fpair else c16.gen_spec(ctx, rng, 'quick', force={'T': 2, 'counts': [1, 1], 'plan': 'one', 'gran': 'line', 'no_kill': True,
                                                    'mix': rng.choice(['geo', 'geo', 'forward', 'inverse', 'boundary'])}) \
         if kind == 'far-cold' and rng.random() < 0.5 else c16.gen_sweep(ctx, rng, kind)
     spec['seed'] = run_seed(master, prop, tier + '-sweep', j) >> 16
@@ -148,7 +159,7 @@ def _sweep(prop, tier, master, j, part):
         pairs.update(tuple(p) for p in res['switch_pairs'])
     return {'sweep': j, 'part': part, 'A': call_repr(spec['threads'][0][0], 70), 'B': call_repr(spec['threads'][1][0], 70),
             'len_A': la, 'len_B': lb, 'kind': kind, 'warm_calls': len(spec['warm']), 'capacity_filler': (spec.get('bulk') or {}).get('n', 0), 'points': len(mine), 'of': len(ks),
-            'exhaustive': exhaustive, 'pairs': sorted(pairs)}, None
+            'exhaustive': exhaustive, 'pairs': sorted(pairs), **({'fpair': list(fpair), 'gran': gran} if fpair else {})}, None
 
 
 def _h8(x):
@@ -457,7 +468,12 @@ def main(argv=None):
         futs = {}
         sweep_futs = {}
         fresh_fut_early = ex.submit(_fresh_batch, prop, tier, master, cfg['fresh']) if cfg.get('fresh') else None
-        sweep_tasks = [(j, part) for j in range(cfg.get('sweeps', 0) if prop == 'C16' else 0) for part in range(SWEEP_PARTS)]
+        sweep_tasks = [(j, part) for j in range((cfg.get('sweeps', 0) + cfg.get('matrix', 0)) if prop == 'C16' else 0)
+                       for part in range(SWEEP_PARTS)]
+        if prop == 'C16' and cfg.get('matrix'):
+            # kind sweeps and function-pair sweeps alternate, so that a wall budget cuts both proportionally
+            nk_, nm_ = max(1, cfg.get('sweeps', 0)), max(1, cfg.get('matrix', 0))
+            sweep_tasks.sort(key=lambda t: ((t[0] / nk_) if t[0] < cfg.get('sweeps', 0) else ((t[0] - cfg.get('sweeps', 0)) / nm_), t[0], t[1]))
         # the first 48 chunks first (they carry the runs the determinism self-test repeats), then sampled runs
         # and sweep slices interleaved, so that a wall budget cuts both proportionally
         every = max(1, len(chunks) // max(1, len(sweep_tasks))) if sweep_tasks else 0
